@@ -116,6 +116,7 @@ theorem rank_env {s s' : St} {t : Tid} {e : Ev} (hs : step s t e = some s') (hc 
   case whole.rd => obtain ⟨_, hs⟩ := hs; subst hs; simp [Pc.rank]
   case whole.wr => obtain ⟨_, hs⟩ := hs; subst hs; simp [Pc.rank]
   case whole.uth => subst hs; simp [Pc.rank]
+  case wCalled.uth => subst hs; simp [Pc.rank]
 
 theorem ranked : Live.Ranked step (fun _ => True) isEnv μ 4 where
   good := fun _ _ _ _ _ _ => trivial
